@@ -91,12 +91,14 @@ static inline size_t vstr_rfind(const vstr *s, const vstr *t, size_t pos) {
 }
 static inline int vstr_compare(const vstr *a, const vstr *b) {
   size_t n = a->len < b->len ? a->len : b->len;
-  for (size_t i = 0; i < n; i++) if (a->b[i] != b->b[i]) return (unsigned char)a->b[i] < (unsigned char)b->b[i] ? -1 : 1;
+  for (size_t i = 0; i < n; i++) if (a->b[i] != b->b[i]) return (a->b[i] & 0xff) < (b->b[i] & 0xff) ? -1 : 1; /* compared as unsigned char, like char_traits<char>::lt */
   return a->len == b->len ? 0 : (a->len < b->len ? -1 : 1);
 }
 static inline vstr vstr_substr(const vstr *s, size_t pos, size_t n);
 /* a.compare(pos, len, b) */
 static inline int vstr_compare3(const vstr *a, size_t pos, size_t len, const vstr *b) { vstr t = vstr_substr(a, pos, len); return vstr_compare(&t, b); }
+static inline int vstr_compare3_lit(const vstr *a, size_t pos, size_t len, const char *lit) { vstr t = vstr_substr(a, pos, len); vstr l = vstr_lit(lit); return vstr_compare(&t, &l); }
+static inline int vstr_compare_lit(const vstr *a, const char *lit) { vstr l = vstr_lit(lit); return vstr_compare(a, &l); }
 static inline char vstr_at_checked(const vstr *s, size_t i) { VSTR_REQUIRE(i < s->len, "std::string::at: index < size() (else std::out_of_range)"); return i < s->len ? s->b[i] : 0; }
 static inline char vstr_back(const vstr *s) { VSTR_REQUIRE(s->len > 0, "std::string::back on an empty string is undefined"); return s->len ? s->b[s->len - 1] : 0; }
 static inline char vstr_front(const vstr *s) { VSTR_REQUIRE(s->len > 0, "std::string::front on an empty string is undefined"); return s->b[0]; }
